@@ -700,7 +700,7 @@ class Dataset(AbstractDataset, dict, OpMixin, GetSetDelAttrMixin):
                 if newax.name not in dataset[k].dims:
                     continue # variables without that dimension are left alone
                 if method is None:
-                    dataset[k].put(mask, fill_value, axis=axis, inplace=True, indexing="position", cast=True)
+                    dataset[k].put(mask, fill_value, axis=newax.name, inplace=True, indexing="position", cast=True)
 
         return dataset
 
